@@ -17,13 +17,13 @@ func runUnit(t *testing.T, job Job, i int, emit emitFn) {
 	case "C07":
 		if i%5 == 4 {
 			plan := GenPlan("tx", "C07", seed)
-			emit(plan, Execute(t, plan, execOptFor(job.Prop)), "explore")
+			emit(plan, ExecuteChecked(t, plan, execOptFor(job.Prop)), "explore")
 			return
 		}
 		enumerateC07(t, seed, emit)
 	default:
 		plan := genFor(job.Profile, job.Prop, seed)
-		emit(plan, Execute(t, plan, execOptFor(job.Prop)), "explore")
+		emit(plan, ExecuteChecked(t, plan, execOptFor(job.Prop)), "explore")
 	}
 }
 
